@@ -127,6 +127,7 @@ func vkPort(i int) networkingv1.NetworkPolicyPort {
 	tcp, udp := kapiv1.ProtocolTCP, kapiv1.ProtocolUDP
 	p80, p81, p82, p90, http := intstr.FromInt(80), intstr.FromInt(81), intstr.FromInt(82), intstr.FromInt(90), intstr.FromString("http")
 	end := int32(85)
+	end90 := int32(90)
 	switch i {
 	case 0:
 		return networkingv1.NetworkPolicyPort{Port: &p80} // protocol defaults to TCP
@@ -142,11 +143,13 @@ func vkPort(i int) networkingv1.NetworkPolicyPort {
 		return networkingv1.NetworkPolicyPort{Protocol: &tcp, Port: &p82, EndPort: &end}
 	case 6:
 		return networkingv1.NetworkPolicyPort{Protocol: &udp, Port: &http}
+	case 7:
+		return networkingv1.NetworkPolicyPort{Protocol: &tcp, Port: &p90}
 	}
-	return networkingv1.NetworkPolicyPort{Protocol: &tcp, Port: &p90}
+	return networkingv1.NetworkPolicyPort{Protocol: &tcp, Port: &p80, EndPort: &end90} // contains 81, 82-85 and 90
 }
 
-const vkNumPorts = 8
+const vkNumPorts = 9
 
 // ---- Kubernetes semantics (written from the NetworkPolicy API documentation) ----
 
@@ -361,12 +364,19 @@ func VerifHarness_C29_convert() {
 		shape /= radix
 		return d
 	}
+	// MODE 1: ports only (no peers, empty pod selector, no labels) - cheap enough to enumerate every
+	// list of up to two ports exhaustively; MODE 0: everything, sampled.
+	portsOnly := verifParam("MODE", 0) == 1
 	ingress := digit(2) == 0
 	np := &networkingv1.NetworkPolicy{ObjectMeta: metav1.ObjectMeta{Name: "np1", Namespace: "ns1"}}
-	if ls := vkLS(digit(vkNumLS)); ls != nil {
+	lsIdx, typesIdx := 1, 2
+	if !portsOnly {
+		lsIdx, typesIdx = digit(vkNumLS), digit(3)
+	}
+	if ls := vkLS(lsIdx); ls != nil {
 		np.Spec.PodSelector = *ls
 	}
-	switch digit(3) {
+	switch typesIdx {
 	case 0:
 		np.Spec.PolicyTypes = []networkingv1.PolicyType{networkingv1.PolicyTypeIngress}
 	case 1:
@@ -379,10 +389,17 @@ func VerifHarness_C29_convert() {
 		ports []networkingv1.NetworkPolicyPort
 	}
 	var rules []vkRule
-	nr := digit(3) // 0 rules = select-and-isolate
+	nr := 1
+	if !portsOnly {
+		nr = digit(3) // 0 rules = select-and-isolate
+	}
 	for i := 0; i < nr; i++ {
 		var r vkRule
-		for k, n := 0, digit(3); k < n; k++ {
+		npeers := 0
+		if !portsOnly {
+			npeers = digit(3)
+		}
+		for k := 0; k < npeers; k++ {
 			r.peers = append(r.peers, vkPeer(digit(vkNumPeers)))
 		}
 		for k, n := 0, digit(3); k < n; k++ {
@@ -407,11 +424,17 @@ func VerifHarness_C29_convert() {
 	pol := v1.(*model.Policy)
 
 	// the cluster state and the connection
-	nsLabels := map[string]map[string]string{"ns1": vkLabels("ns1", []string{"team"}), "ns2": vkLabels("ns2", []string{"team"})}
+	nsLabels := map[string]map[string]string{"ns1": {}, "ns2": {}}
+	if !portsOnly {
+		nsLabels = map[string]map[string]string{"ns1": vkLabels("ns1", []string{"team"}), "ns2": vkLabels("ns2", []string{"team"})}
+	}
 	mkPod := func(tag string) *vkPod {
-		p := &vkPod{isPod: true, ns: "ns1", labels: vkLabels(tag, []string{"app", "tier"}), ip: verifU32(tag + ".ip")}
-		if verifBool(tag + ".in-ns2") {
-			p.ns = "ns2"
+		p := &vkPod{isPod: true, ns: "ns1", labels: map[string]string{}, ip: verifU32(tag + ".ip")}
+		if !portsOnly {
+			p.labels = vkLabels(tag, []string{"app", "tier"})
+			if verifBool(tag + ".in-ns2") {
+				p.ns = "ns2"
+			}
 		}
 		p.nsLabels = nsLabels[p.ns]
 		p.hasNamed = verifBool(tag + ".has-named-port")
